@@ -157,6 +157,7 @@ func (iter *queryIterator) NextBytes() []byte {
 		return nil
 	}
 	if !iter.rows.Next() {
+		iter.err = iter.rows.Err() // nil at the normal end of the result set
 		return nil
 	}
 
